@@ -6,7 +6,8 @@ value-returning, side-effect-free resolver whose result is thrown away (`self._u
 utils.normpath(udf_path))` as a statement) exists only for its refusal.  Such a statement protects the later
 statements that hand the same parameter to the mutating code - but only on the paths on which it executes.
 
-For every such validation statement V (callee returns a value, is transitively free of persistent writes,
+For every such validation statement V (a call statement whose callee leaves nothing changed and can refuse -
+whether it returns the resolved destination or nothing, as the `_check_*_destination` helpers do -
 arguments built from parameters P of the enclosing function) and every later statement U of the function that
 passes one of P to a call: every parameter-only condition governing V (enclosing tests, with polarity) is
 also among the conditions governing U.  `if joliet_path: V_j  elif udf_path: V_u` puts V_u under
@@ -25,26 +26,16 @@ MIN_VALIDATIONS = 4
 
 
 def _pure(ctx, f, memo):
-    """f and everything it calls write no object that outlives the call (writes to objects created inside the
-    function - the scratch DirectoryRecord a lookup builds for bisect - do not count; freshness as in sa/vbm.py)"""
-    if f.qual in memo:
-        return memo[f.qual]
-    eng = memo.get('__engine__')
-    if eng is None:
-        from .. import vbm
-        eng = memo['__engine__'] = vbm.VBM(ctx)
-        eng._compute_returns_fresh(list(ctx.m.pkg_functions()))
-    seen = ctx.reachable_from([f], include_candidates=False)
-    ok = True
-    for q in seen:
-        g = ctx.m.functions.get(q)
-        if g is None or g.name == '__init__':
-            continue
-        if eng._node_writes(g, eng.fresh_locals(g)):
-            ok = False
-            break
-    memo[f.qual] = ok
-    return ok
+    """f (and everything it calls) leaves no object changed on normal return and can refuse: decided by the
+    validate-before-mutate engine's summaries (normal-exit write set empty, at least one escaping
+    PyCdlibInvalidInput)"""
+    from .vbmrule import run_engine
+    eng = run_engine(ctx)
+    sm = eng.summ.get(f.qual)
+    if sm is None:
+        return False
+    normal, events = sm
+    return not normal and any(k[1] == 'PyCdlibInvalidInput' for k, _r, _o in events)
 
 
 def _names(e):
@@ -77,13 +68,11 @@ def prevalidate(ctx):
                 continue
             callees, kind = ctx.t._resolve(n.value, fi)
             callees = [f for f in (callees or ()) if hasattr(f, 'rtype')]
-            if not callees or not all(f.rtype is not None and f.rtype != ('prim', 'None') for f in callees):
-                continue
-            if not all(_pure(ctx, f, memo) for f in callees):
+            if not callees or not all(_pure(ctx, f, memo) for f in callees):
                 continue
             used = set()
             for a in list(n.value.args) + [k.value for k in n.value.keywords]:
-                used |= _names(a) & params
+                used |= _names(ex.expand(ctx, fi, a, n)) & params
             if used:
                 vals.append((n, used))
         if not vals:
